@@ -352,6 +352,49 @@ pub fn eval_huge_slice(c: &HugeSlice, st: &mut Stats) -> Result<(), String> {
     Ok(())
 }
 
+/// Totals at and beyond 2^64 bytes (zero prefix through the hook, the last step through a real update form): the size
+/// counter must not come round to a small number - such an input is above the limit like any other.
+#[derive(Debug, Clone, serde::Serialize, serde::Deserialize)]
+pub struct BeyondU64 {
+    /// the hook establishes a prefix of u64::MAX - short zero bytes
+    pub short: u64,
+    /// bytes fed afterwards
+    pub more: u32,
+    /// 0 update, 1 update_by_iter, 2 update_by_byte, 3 += slice
+    pub form: u8,
+}
+
+pub fn eval_beyond_u64(c: &BeyondU64, st: &mut Stats) -> Result<(), String> {
+    let mut g = must("verif_new_with_prefix_zeroes", || Generator::verif_new_with_prefix_zeroes(u64::MAX - c.short))?;
+    let data: Vec<u8> = (0..c.more).map(|i| (i as u8).wrapping_mul(29) ^ 0x41).collect();
+    match c.form % 4 {
+        0 => must("update", || {
+            g.update(&data);
+        })?,
+        1 => must("update_by_iter", || {
+            g.update_by_iter(data.iter().copied());
+        })?,
+        2 => must("update_by_byte", || {
+            for &b in &data {
+                g.update_by_byte(b);
+            }
+        })?,
+        _ => must("+= slice", || {
+            g += &data[..];
+        })?,
+    }
+    let what = format!("2^64 - 1 - {} zero bytes and {} more bytes (form {})", c.short, c.more, c.form % 4);
+    ensure!(must("input_size", || g.input_size())? > MAX_INPUT_SIZE, "input_size() after {} is not above the limit", what);
+    ensure!(!must("may_warn_about_small_input_size", || g.may_warn_about_small_input_size())?, "may_warn_about_small_input_size() after {}", what);
+    let f1 = must("finalize", || g.finalize())?;
+    ensure_eq!(f1.map(|h| h.to_string()), Err(GeneratorError::InputSizeTooLarge), "finalize() after {}", what);
+    let f2 = must("finalize_without_truncation", || g.finalize_without_truncation())?;
+    ensure_eq!(f2.map(|h| h.to_string()), Err(GeneratorError::InputSizeTooLarge), "finalize_without_truncation() after {}", what);
+    st.class(if c.more as u64 > c.short { "total>=2^64" } else { "total<2^64" });
+    st.nontrivial(oracle::fingerprint(format!("{:?}", c).as_bytes()));
+    Ok(())
+}
+
 pub fn subchecks(tier: Tier) -> Vec<SubCheck> {
     let wt_seed = move || -> u64 {
         std::env::var("VERIF_SEED").ok().and_then(|s| s.trim().parse::<i128>().ok()).map(|v| v as u64).unwrap_or(0) ^ 0xC13
@@ -392,6 +435,22 @@ pub fn subchecks(tier: Tier) -> Vec<SubCheck> {
             eval_hook,
         ),
         main,
+        crate::engine::listed(
+            "totals_around_2_pow_64",
+            "zero prefix of 2^64 - 1 - s bytes through the hook (s = 0..40), then m = 0..64 more bytes by each update form: the total reaches or passes 2^64; finalize* must return the input-too-large error, input_size() must stay above the limit and the small-input query false; non-trivial = all; distinct by case",
+            {
+                let mut v = Vec::new();
+                for short in [0u64, 1, 2, 6, 7, 8, 40] {
+                    for more in [0u32, 1, 2, 7, 8, 9, 41, 64] {
+                        for form in 0u8..4 {
+                            v.push(BeyondU64 { short, more, form });
+                        }
+                    }
+                }
+                v
+            },
+            eval_beyond_u64,
+        ),
         crate::engine::listed(
             "single_slice_beyond_4gib",
             "one update(&[u8]) / hash_buf call with a real slice of 2^32 + k bytes (zeros, noise at the start, words of levels 19..27 over the 4 KiB before byte 2^32 and everything after it): hash, input_size vs the reference models with the zero run in closed form; non-trivial = >= 1 piece at the selected level; distinct by case",
